@@ -12,6 +12,9 @@ The check is a LIST OF SUB-CHECKS (SUBCHECKS at the bottom):
   magnet   real internal/magnet New()/String(); Trace_Metadata judges every parse / round trip.
   e2e      real Session.AddURI(magnet) + scripted peers (policy vectors, late-honest schedules); Trace_Metadata judges
            C13.cap / C13.adopt / C13.private / C13.live (bounded time, violations confirmed by a slow re-run).
+
+Every sub-check but design/gen RECORDS traces of the real code and returns a Rec; judge_all() then lets TLC
+(Trace_Metadata) judge all recorded traces in as few runs as possible.
 """
 import collections, json, os, random, re
 import vlib
@@ -53,16 +56,46 @@ def validate(ctx, path, ntraces, timeout=1500):
     return {int(l): t for l, t in re.findall(r'@@VIOL (\d+) ([A-Za-z0-9_.]+)', res["out"])}
 
 
-def first_viol_per_trace(traces, viols):
-    """[(trace, position_in_trace, tag)] - the first failed obligation of each trace."""
-    out = []
-    for first, evs in traces:
-        for k in range(len(evs)):
-            tag = viols.get(first + k)
-            if tag:
-                out.append((evs, k, tag))
-                break
-    return out
+class Rec:
+    """Recorded traces of one sub-check, waiting for the judge.  traces: list of event lists (each starts with Init);
+    perline: every line after the Init is a judgement of its own (magnet); on_viol(ctx, evs, k, tag) reports."""
+    def __init__(self, name, traces, on_viol, perline=False):
+        self.name, self.traces, self.on_viol, self.perline = name, traces, on_viol, perline
+
+
+def judge_all(ctx, recs, max_lines=60000):
+    """Validate the traces of several sub-checks with as few TLC runs as possible (one per max_lines lines)."""
+    units = []                      # (rec, evs) ; a per-line trace is cut into pieces that repeat its Init line
+    for r in recs:
+        for evs in r.traces:
+            if r.perline and len(evs) > max_lines // 2:
+                step = max_lines // 2
+                for a in range(1, len(evs), step):
+                    units.append((r, [evs[0]] + evs[a:a + step]))
+            else:
+                units.append((r, evs))
+    i = 0
+    while i < len(units):
+        part, n = [], 0
+        while i < len(units) and (not part or n + len(units[i][1]) <= max_lines):
+            part.append(units[i])
+            n += len(units[i][1])
+            i += 1
+        pp = ctx.path("judge_part.ndjson")
+        with open(pp, "w") as fh:
+            for _, evs in part:
+                for e in evs:
+                    fh.write(json.dumps(e, separators=(",", ":")) + "\n")
+        viols = validate(ctx, pp, len(part))
+        first = 1
+        for r, evs in part:
+            for k in range(len(evs)):
+                tag = viols.get(first + k)
+                if tag:
+                    r.on_viol(ctx, evs, k, tag)
+                    if not r.perline:
+                        break
+            first += len(evs)
 
 
 def write_cases(path, cases):
@@ -74,22 +107,22 @@ def write_cases(path, cases):
 # ----------------------------------------------------------------------------------------------- design
 
 def sub_design(ctx):
-    # safety of the design as coded (no restart after a connection loss, duplicates accepted or refused), arbitrary liars
+    # one run, 2 peers, arbitrary liars, three design modes: safety (C13.adopt, C13.cap, ...) in all of them - the design as
+    # coded with and without connection losses, and the repaired design (startInfoDownloaders after every closePeer) -
+    # and liveness (C13.live) in the two modes in which it is expected to hold
     ctx.tlc_mc("MC_Metadata", "MC_Metadata.cfg", timeout=900)
-    # liveness: the code as it is, peers never lose the connection
-    ctx.tlc_mc("MC_Metadata", "MC_Metadata_live.cfg", timeout=900)
-    # liveness of the repaired design (startInfoDownloaders after every closePeer) with connection losses
-    ctx.tlc_mc("MC_Metadata", "MC_Metadata_fixed.cfg", timeout=900)
     if not ctx.quick():
+        # 3 peers: safety as coded (duplicates accepted or refused), liveness as coded without losses, repaired with losses
         ctx.tlc_mc("MC_Metadata", "MC_Metadata_big.cfg", timeout=2400)
         ctx.tlc_mc("MC_Metadata", "MC_Metadata_live3nd.cfg", timeout=2400)
         ctx.tlc_mc("MC_Metadata", "MC_Metadata_live3.cfg", timeout=2400)
     # the design AS CODED with connection losses: TLC is expected to find the stall; its counterexample becomes a scenario
     ok, out = ctx.tlc_mc("MC_Metadata", "MC_Metadata_asis.cfg", timeout=900, expect_ok=False)
+    ctx.mc_runs[-1]["expected"] = "liveness counterexample: this is the design as coded, with connection losses"
     ctx.extra["design_asis_live"] = "holds" if ok else "violated (counterexample replayed on the real code by sub-check e2e)"
     ctx.cex_scenario = None
     if not ok:
-        if "Temporal property Live was violated" not in out and "Temporal properties were violated" not in out:
+        if "Temporal property LiveAll was violated" not in out and "Temporal properties were violated" not in out:
             raise vlib.MachineryError("MC_Metadata_asis failed, but not with the expected liveness counterexample:\n" + out[-3000:])
         ctx.cex_scenario = scenario_from_cex(out)
         ctx.sample({"design_counterexample_scenario": ctx.cex_scenario})
@@ -195,21 +228,13 @@ def sub_idl(ctx):
     ctx.extra.setdefault("observations", {})["idl_duplicate_block_accepted"] = dup_accept
     ctx.extra["observations"]["idl_done_with_missing_block_after_duplicate"] = premature
     ctx.sample({"idl_trace": traces[len(traces) // 2][1][:8]})
-    # judge in chunks (TLC reads the whole file into memory)
-    chunk = 4000
-    for a in range(0, len(traces), chunk):
-        part = traces[a:a + chunk]
-        pp = ctx.path("idl_part.ndjson")
-        with open(pp, "w") as fh:
-            for _, evs in part:
-                for e in evs:
-                    fh.write(json.dumps(e, separators=(",", ":")) + "\n")
-        renum = split_traces(pp)
-        viols = validate(ctx, pp, len(part))
-        for evs, k, tag in first_viol_per_trace(renum, viols):
-            ctx.violation(tag, idl_sig(evs, k, tag),
-                          "InfoDownloader violates %s at event %d of a recorded history: %s" % (tag, k, json.dumps(evs[k])[:300]),
-                          {"history": evs[:k + 1]})
+    return Rec("idl", [evs for _, evs in traces], idl_viol)
+
+
+def idl_viol(ctx, evs, k, tag):
+    ctx.violation(tag, idl_sig(evs, k, tag),
+                  "InfoDownloader violates %s at event %d of a recorded history: %s" % (tag, k, json.dumps(evs[k])[:300]),
+                  {"history": evs[:k + 1]})
 
 
 # ----------------------------------------------------------------------------------------------- magnet
@@ -231,21 +256,16 @@ def sub_magnet(ctx):
             order_changed += 1
     ctx.extra.setdefault("observations", {})["magnet_tier_order_changed_by_roundtrip"] = order_changed
     ctx.sample({"magnet_line": {k: v for k, v in lines[len(lines) // 2].items()}})
-    chunk = 20000
-    for a in range(1, len(lines), chunk):
-        part = [lines[0]] + lines[a:a + chunk]
-        pp = ctx.path("mag_part.ndjson")
-        with open(pp, "w") as fh:
-            for e in part:
-                fh.write(json.dumps(e, separators=(",", ":")) + "\n")
-        viols = validate(ctx, pp, len(part) - 1)
-        for ln in sorted(viols):
-            e, tag = part[ln - 1], viols[ln]
-            c = e["c"]
-            sig = "magnet tag=%s dir=%s hf=%s xt=%s enc=%s name=%s trform=%s tiers=%s peers=%s must=%d err=%d" % (
-                tag, e["dir"], c["hf"], c["xt"], c["enc"], c["name"], c["trform"], "-".join(map(str, c["tiers"])),
-                "+".join(c["peers"]) or "none", e["must"], e["err"])
-            ctx.violation(tag, sig, "magnet %s: %s on %s" % (e["dir"], tag, e["link"][:300]), {"line": e})
+    return Rec("magnet", [lines], mag_viol, perline=True)
+
+
+def mag_viol(ctx, evs, k, tag):
+    e = evs[k]
+    c = e["c"]
+    sig = "magnet tag=%s dir=%s hf=%s xt=%s enc=%s name=%s trform=%s tiers=%s peers=%s must=%d err=%d" % (
+        tag, e["dir"], c["hf"], c["xt"], c["enc"], c["name"], c["trform"], "-".join(map(str, c["tiers"])),
+        "+".join(c["peers"]) or "none", e["must"], e["err"])
+    ctx.violation(tag, sig, "magnet %s: %s on %s" % (e["dir"], tag, e["link"][:300]), {"line": e})
 
 
 # ----------------------------------------------------------------------------------------------- e2e
@@ -263,6 +283,8 @@ def pick_e2e(ctx, cases, n):
         pols = c["pols"]
         stallish = c["late"] == 1 and "honest" in pols and all(p in NO_RESTART for p in pols[:c["par"]])
         (must if stallish else rest).append(c)
+    # the private-info scenarios (honest and forged) are always replayed
+    priv = [c for c in rest if c["priv"] == 1 and c["pols"][0] in ("honest", "total", "forge", "garbage")]
     rnd.shuffle(must)
     rnd.shuffle(rest)
     keep_must = must[:max(2, n // 12)]
@@ -273,7 +295,8 @@ def pick_e2e(ctx, cases, n):
         if new:
             cover.append(c)
             seen.update(c["pols"])
-    chosen = keep_must + cover
+    rnd.shuffle(priv)
+    chosen = keep_must + priv[:max(3, n // 20)] + [c for c in cover if c not in priv]
     ids = {c["id"] for c in chosen}
     for c in rest:
         if len(chosen) >= n:
@@ -287,17 +310,17 @@ def pick_e2e(ctx, cases, n):
 def e2e_sig(evs, tag):
     init = evs[0]
     pol = init["pol"]
-    asked, gone = set(), set()
+    asked, gone = set(), []
     for e in evs:
         if e["op"] == "PeerReq":
             asked.add(e["p"])
-        elif e["op"] == "PeerGone":
-            gone.add(e["p"])
+        elif e["op"] == "PeerGone" and e["p"] not in gone:
+            gone.append(e["p"])
     honest = [p for p in range(1, len(pol) + 1) if pol[p - 1] == "honest"]
     # asked peers that are still connected; the ones that never answer ("stall") are snubbed by the deadline and hold no slot
     askers_alive = sorted(p for p in asked if p not in gone and pol[p - 1] not in ("honest", "stall"))
     stalled = sorted(p for p in asked if p not in gone and pol[p - 1] == "stall")
-    left = sorted(pol[p - 1] for p in asked if p in gone)
+    left = [pol[p - 1] for p in gone if p in asked]          # asked peers in the order in which they left
     return ("e2e tag=%s pols=%s par=%d private=%s honest_asked=%d askers_alive=%d stalled=%d left=%s"
             % (tag, ",".join(pol), init["par"], str(init["private"]).lower(), int(any(p in asked for p in honest)),
                len(askers_alive), len(stalled), ",".join(left) or "none"))
@@ -308,19 +331,23 @@ def is_known(ctx, tag, sig):
                and re.search(k.get("match", ""), sig) for k in ctx.known)
 
 
-def run_e2e(ctx, cases, name, deadline_ms, jobs):
+def record_e2e(ctx, cases, name, deadline_ms, jobs):
     cp = ctx.path("cases_%s.ndjson" % name)
     write_cases(cp, cases)
     tp = ctx.path("%s.ndjson" % name)
     r = ctx.run_drv(ctx.drv, ["-mode", "e2e", "-cases", cp, "-seed", str(ctx.seed), "-out", tp, "-j", str(jobs),
                               "-deadline", str(deadline_ms)], timeout=2400)
     st = json.loads(r.stdout.strip().splitlines()[-1])
-    traces = split_traces(tp)
-    incomplete = [evs for _, evs in traces if evs[-1]["op"] != "End"]
+    traces = [evs for _, evs in split_traces(tp)]
+    incomplete = [evs for evs in traces if evs[-1]["op"] != "End"]
     if len(incomplete) > max(2, len(traces) // 10):
         raise vlib.MachineryError("e2e: %d of %d scenarios could not be set up:\n%s" % (len(incomplete), len(traces), r.stderr[-2000:]))
-    viols = validate(ctx, tp, len(traces))
-    return st, traces, first_viol_per_trace(traces, viols)
+    return st, traces
+
+
+def live_text(evs):
+    return ("metadata not fetched although an honest peer is connected (%s, ParallelMetadataDownloads=%d, waited %d ms, status %s)"
+            % (",".join(evs[0]["pol"]), evs[0]["par"], evs[-1].get("ms", 0), evs[-1].get("status")))
 
 
 def sub_e2e(ctx):
@@ -329,14 +356,15 @@ def sub_e2e(ctx):
         c = dict(ctx.cex_scenario)
         c["id"] = 100000
         cases.insert(0, c)
-    st, traces, bad = run_e2e(ctx, cases, "e2e", ctx.pick(6000, 8000), ctx.pick(12, 16))
+    st, traces = record_e2e(ctx, cases, "e2e", ctx.pick(6000, 8000), ctx.pick(12, 16))
     ctx.extra["e2e_driver"] = st
-    byid = {c["id"]: c for c in cases}
-    for _, evs in traces:
+    ctx.e2e_byid = {c["id"]: c for c in cases}
+    ctx.e2e_confirm = []
+    for evs in traces:
         end = evs[-1]
         if end["op"] != "End":
             continue
-        c = byid.get(end.get("id"), {})
+        c = ctx.e2e_byid.get(end.get("id"), {})
         ctx.count_case(("e2e", tuple(evs[0]["pol"]), evs[0]["par"], c.get("late"), c.get("nb"), evs[0]["private"]), True)
         ctx.oblig("C13.cap", sum(1 for e in evs if e["op"] == "PeerReq"))
         ctx.oblig("C13.adopt", end["adopted"])
@@ -344,28 +372,30 @@ def sub_e2e(ctx):
             ctx.oblig("C13.live")
         if evs[0]["private"]:
             ctx.oblig("C13.private")
-    ctx.sample({"e2e_trace": [e for e in traces[min(3, len(traces) - 1)][1]][:14]})
-    # a missed deadline may be the machine, not the code: re-run those scenarios alone with a threefold deadline
-    confirm = []
-    for evs, k, tag in bad:
-        if tag == "C13.live" and not is_known(ctx, tag, e2e_sig(evs, tag)):
-            confirm.append(byid[evs[-1]["id"]])
-        elif tag == "C13.live":
-            ctx.violation(tag, e2e_sig(evs, tag),
-                          "metadata not fetched although an honest peer is connected (%s, ParallelMetadataDownloads=%d, waited %d ms, status %s)"
-                          % (",".join(evs[0]["pol"]), evs[0]["par"], evs[-1].get("ms", 0), evs[-1].get("status")),
-                          {"scenario": byid.get(evs[-1].get("id")), "trace": evs})
-        else:
-            ctx.violation(tag, e2e_sig(evs, tag), "end-to-end scenario violates %s: %s" % (tag, json.dumps(evs[k])[:300]),
-                          {"scenario": byid.get(evs[-1].get("id")), "trace": evs})
-    if confirm:
-        _, _, bad2 = run_e2e(ctx, confirm, "e2e_confirm", 3 * ctx.pick(6000, 8000), 16)
-        ctx.extra["e2e_live_confirmed"] = "%d of %d" % (len(bad2), len(confirm))
-        for evs, k, tag in bad2:
-            ctx.violation(tag, e2e_sig(evs, tag),
-                          "metadata not fetched although an honest peer is connected (%s, ParallelMetadataDownloads=%d, waited %d ms, status %s)"
-                          % (",".join(evs[0]["pol"]), evs[0]["par"], evs[-1].get("ms", 0), evs[-1].get("status")),
-                          {"scenario": byid.get(evs[-1].get("id")), "trace": evs})
+    ctx.sample({"e2e_trace": traces[min(3, len(traces) - 1)][:14]})
+    return Rec("e2e", traces, e2e_viol)
+
+
+def e2e_viol(ctx, evs, k, tag):
+    sig = e2e_sig(evs, tag)
+    scenario = ctx.e2e_byid.get(evs[-1].get("id"))
+    if tag == "C13.live" and not is_known(ctx, tag, sig) and not getattr(ctx, "e2e_confirming", False):
+        # a missed deadline may be the machine, not the code: such scenarios are re-run with a threefold deadline first
+        ctx.e2e_confirm.append(scenario)
+    elif tag == "C13.live":
+        ctx.violation(tag, sig, live_text(evs), {"scenario": scenario, "trace": evs})
+    else:
+        ctx.violation(tag, sig, "end-to-end scenario violates %s: %s" % (tag, json.dumps(evs[k])[:300]), {"scenario": scenario, "trace": evs})
+
+
+def e2e_confirm(ctx):
+    if not getattr(ctx, "e2e_confirm", None):
+        return
+    ctx.e2e_confirming = True
+    _, traces = record_e2e(ctx, ctx.e2e_confirm, "e2e_confirm", 3 * ctx.pick(6000, 8000), 16)
+    before = len(ctx.violations) + len(ctx.known_hits)
+    judge_all(ctx, [Rec("e2e_confirm", traces, e2e_viol)])
+    ctx.extra["e2e_live_rerun"] = "%d scenario(s) re-run with the threefold deadline" % len(ctx.e2e_confirm)
 
 
 # ----------------------------------------------------------------------------------------------- entry
@@ -388,7 +418,13 @@ def run(ctx):
     ctx.drv = ctx.build_go("c13")
     only = [x for x in os.environ.get("C13_ONLY", "").split(",") if x]     # development aid: run selected sub-checks
     ctx.cex_scenario = None
+    recs = []
     for name, f in SUBCHECKS:
         if only and name != "gen" and name not in only:
             continue
-        f(ctx)
+        r = f(ctx)
+        if r is not None:
+            recs.append(r)
+    # implementation -> specification: TLC judges everything that was recorded
+    judge_all(ctx, recs, max_lines=ctx.pick(70000, 60000))
+    e2e_confirm(ctx)
